@@ -2224,6 +2224,7 @@ class Interp:
                 # partial(f, *bound, **kw)(*args, **more) IS f(*bound, *args, **kw, **more)
                 kw = dict(a[3])
                 kw.update(kwargs)
+                rec.args, rec.kwargs = list(a[2][1:]) + list(args), kw        # the record shows the call actually made
                 return self._call_value(a[2][0], list(a[2][1:]) + list(args), kw, st, fi, depth, n, rec)
             if a is not None and a[0] == "fn" and a[1] == "operator.itemgetter" and len(a[2]) == 1 and len(args) == 1 and not kwargs:
                 return self._dispatch_call(n, "operator.getitem", [args[0], a[2][0]], {}, st, fi, depth, rec)
